@@ -143,7 +143,9 @@ def effective_chunk(chunk, size=None):
 
 
 def progress_reason(c, size, ok):
-    """C09: per subscriber, running sum within [0,size]; on success the sum is exactly size"""
+    """C09: for a successful transfer, per subscriber: running sum within [0,size], total exactly size"""
+    if not ok:
+        return None
     for s in c.subs:
         run = 0
         for v in s.progress:
